@@ -80,6 +80,25 @@ def install_trace_funcs(reg):
 
     sf["call_result"] = call_result
 
+    def call_arg(it, suffix, k, i):
+        """argument i (0 = self for methods) of the k-th contract-applied call whose target ends with suffix"""
+        suffix, k, i = it.concrete(suffix), it.concrete(k), it.concrete(i)
+        evs = [e for e in it.ctx.trace if e[0] == "call" and e[1][0].endswith(suffix)]
+        if k >= len(evs) or i >= len(evs[k][1][1]):
+            return NONE
+        return evs[k][1][1][i]
+
+    sf.setdefault("call_arg", call_arg)
+
+    def seq_has(it, seq, x):
+        """x occurs in the sequence"""
+        seq, x = it.force(seq), it.force(x)
+        if isinstance(seq, (VList, VTuple)):
+            return VBool(z3.Or([it.eq(y, x) for y in seq.items] + [z3.BoolVal(False)]))
+        return VBool(z3.Contains(seq.z, z3.Unit(to_z3(x, seq.elem))))
+
+    sf.setdefault("seq_has", seq_has)
+
     def iter_event(it, name):
         """the value of the single event `name` raised in the current loop iteration;
         proves there is exactly one (a hoisted or duplicated draw fails here)"""
